@@ -143,9 +143,21 @@ def family_L(rng, n=None, max_lag=3, max_lead=2, measurement=None, unit_root=Fal
                 other = spec["mshocks"][int(rng.integers(0, len(spec["mshocks"])))]["name"]
                 if other != f"w{j}":
                     terms.append(E.bin_("*", E.num(_r(rng, 0.3, 1.2, 2)), E.var(other, 0)))
+            if j >= 1 and rng.random() < 0.3:
+                # a measurement equation that refers to another (earlier) measurement variable: F is no longer minus identity
+                terms.append(E.bin_("*", E.num(_r(rng, 0.2, 0.8, 2)), E.var(f"ob{int(rng.integers(0, j))}", 0)))
             spec["meqs"].append({"lhs": E.var(f"ob{j}", 0), "rhs": E.add_all(terms), "steady": None, "desc": "", "eqsign": "="})
+        _permute_measurement_equations(rng, spec)
     spec, meta = rename_quantities(rng, spec, meta)
     return spec, meta
+
+
+def _permute_measurement_equations(rng, spec):
+    """the measurement equations need not be written in the order in which the measurement variables are declared
+    (a rotation of three equations makes the matrix F of the measurement block a non-symmetric permutation)"""
+    if len(spec["meqs"]) >= 2 and rng.random() < 0.5:
+        order = [int(i) for i in rng.permutation(len(spec["meqs"]))]
+        spec["meqs"] = [spec["meqs"][i] for i in order]
 
 
 # ------------------------------------------------------------------------------
@@ -279,6 +291,7 @@ def family_N(rng, n=None, max_lag=2, max_lead=2, measurement=None, forward_share
         if spec["mvars"][j]["log"] and val <= 0:
             return None, None, None
     meta["xbar"] = xbar
+    _permute_measurement_equations(rng, spec)
     spec, steady, meta = rename_quantities(rng, spec, steady, meta)
     return spec, steady, meta
 
